@@ -265,3 +265,8 @@ def check(run, prog, tier):
 
     import rules.C07g as c07g
     c07g.check(run, prog, tier)
+
+    # ---- C07-h a name resolves the same way whatever was compiled before
+    run.rule("C07-h", "compile-time resolution of a called name looks at the identifier's function_num first (a function of the program being compiled), then simul_efuns and efuns; free_unused_identifiers() at the end of every compilation resets that binding for permanent identifiers (the dirty list) on every path, so a program that redefines an efun name cannot make the next program's call of that efun a local call into its own function table", 3)
+    import rules.identreset as identreset
+    identreset.check(run, prog, "C07-h", "the next program's call of a redefined efun name is compiled as a local call to whatever function sits in that slot (possibly static/private)")
